@@ -16,6 +16,9 @@ def main(argv):
         return 2
     kernel.use_repo()
     kernel.pin_process()
+    import faulthandler
+    import signal
+    faulthandler.register(signal.SIGUSR1, all_threads=True)   # kill -USR1 <pid> dumps all stacks
     if argv[0] == 'replay':
         with open(argv[1], encoding='utf-8') as fil:
             rec = json.load(fil)
